@@ -104,7 +104,7 @@ class C03(Sim):
             "scheduler (+ cache drops in odd seeds), then the same queries on a fresh instance in another order and a sample alone on "
             "fresh instances; distinct = distinct (mesh class (V,C, #interior vertices/edges, orientation mode), sort mode, first-touch "
             "order of the lazy caches); non-trivial = >= 3 judged queries from >= 2 families")
-    FAULT_KINDS = ["cache_drop"]
+    FAULT_KINDS = ["cache_drop", "bad_index"]
     PROBES = ["interior_edge_ring", "border_edge_ring", "sort_off", "query_after_drop", "miss_query", "interior_vertex", "boundary_extracted",
               "standalone_extracted", "standalone_outward_checked", "mixed_orientation", "fresh_single_query", "reordered_pass", "second_volume"]
     QUICK_RUNS = 3000
@@ -230,6 +230,14 @@ class C03(Sim):
         weights = [cfg["clients"].count(n) * (0.4 if n == "boundary" else 1) or cfg["drop_rate"] * 4 for n in names]
         c = self.pick_client(rng, names, weights, cfg["burst"])
         r = self.client_rng(c)
+        if c == "dropper" and r.chance(0.3):
+            # fault 'bad_index': a query about an element that does not exist.  Its own outcome (None, an exception ...) is not judged;
+            # what is: every later answer is still right (a failing query must not leave a half-built cache behind)
+            qs = [q for q in sorted(Q) if len(self._gen_args(Rng(1), q)) >= 1]
+            q = r.choice(qs)
+            args = self._gen_args(r, q)
+            args[r.below(len(args))] = 10 ** 6 + r.below(5)
+            return {"c": c, "op": "bad_index", "q": q, "args": args}
         if c == "dropper":
             return {"c": c, "op": "drop_connectivity"}
         if c == "boundary":
@@ -357,6 +365,12 @@ class C03(Sim):
         self.calls += 1
         op = ev["op"]
         mesh = self.mesh
+        if op == "bad_index":
+            fam, fn, expf, mode = Q[ev["q"]]
+            o = call(fn, mesh, mesh.connectivity, *ev["args"])
+            self.faults["bad_index"] += 1
+            self.dropped = self.dropped  # (caches may or may not have been built by the failing call)
+            return o.brief()
         if op == "drop_connectivity":
             o = call(mesh.connectivity.clear)
             if not o.ok:
